@@ -40,8 +40,8 @@ ROWS = {
  "deriv_thorough": dict(acts=S("CvDerivate"), props=["DerivFormulaAgrees"], degs="Degs4", maxnpts=7, wts='"none", "gen", "gen2"'),
  "integ_quick": dict(acts=S("CvIntegrate", "IntegrateFn"), props=["IntegralAgrees"], wts='"none"'),
  "integ_thorough": dict(acts=S("CvIntegrate", "IntegrateFn"), props=["IntegralAgrees"], wts='"none"', degs="Degs4", maxnpts=8, pts='"gen", "unit"'),
- "fitcurve_quick": dict(acts=S("CvFitCurve"), wts='"none"', pts='"pos"', maxnpts=4, omax=4),
- "fitcurve_thorough": dict(acts=S("CvFitCurve"), wts='"none"', pts='"pos"', maxnpts=5, omax=5, degs="DegsT", odegs="DegsT"),
+ "fitcurve_quick": dict(acts=S("CvFitCurve", "CvFitInRational"), wts='"none"', pts='"pos", "ratlin"', maxnpts=4, omax=4),
+ "fitcurve_thorough": dict(acts=S("CvFitCurve", "CvFitInRational"), wts='"none"', pts='"pos", "ratlin"', maxnpts=5, omax=5, degs="DegsT", odegs="DegsT"),
  "fitpoints_quick": dict(acts=S("CvFitPoints", "CvFitFunction"), pts='"pos"', maxnpts=4),
  "fitpoints_thorough": dict(acts=S("CvFitPoints", "CvFitFunction"), pts='"pos"', maxnpts=6, degs="DegsT", wts='"none", "gen", "gen2"'),
 }
